@@ -323,7 +323,14 @@ impl Scenario for RepeatScenario {
             } else {
                 Dest::Own
             };
-            script.push(gen_executed_request(rng, &cfg.points, to));
+            if rng.chance(1, 8) {
+                // a SELECT and its matching OPERATE: the OPERATE is executed, and it is its retransmission that follows
+                let controls = gen_controls(rng);
+                script.push(simple_request(refapp::FUNC_SELECT, controls.clone()));
+                script.push(simple_request(refapp::FUNC_OPERATE, controls));
+            } else {
+                script.push(gen_executed_request(rng, &cfg.points, to));
+            }
             let dups = rng.urange(1, 3);
             for _ in 0..dups {
                 match rng.below(6) {
@@ -436,6 +443,9 @@ impl Oracle for RepeatOracle {
             self.sol_pending = None;
             self.unsol_pending = false;
         }
+        // the state in which this step's fragment arrives is the one before the session reacted to it
+        let sol_pending_at_arrival = self.sol_pending;
+        let unsol_pending_at_arrival = self.unsol_pending;
         // confirm-wait bookkeeping from the library's information callbacks
         for (_, cb) in &step.callbacks {
             if let Cb::Info(s) = cb {
@@ -495,18 +505,18 @@ impl Oracle for RepeatOracle {
             {
                 // a genuine retransmission of the request processed last
                 let func = s.bytes[1];
-                let state = if self.sol_pending.is_some() {
+                let state = if sol_pending_at_arrival.is_some() {
                     1
-                } else if self.unsol_pending {
+                } else if unsol_pending_at_arrival {
                     2
                 } else {
                     0
                 };
-                if self.sol_pending.map(|n| n >= 2).unwrap_or(false) {
+                if sol_pending_at_arrival.map(|n| n >= 2).unwrap_or(false) {
                     self.nontrivial = true;
                     self.bump("probe.repeat_in_fragment_2_or_later");
                 }
-                if self.unsol_pending {
+                if unsol_pending_at_arrival {
                     self.nontrivial = true;
                     self.bump("probe.repeat_during_unsolicited_wait");
                 }
@@ -596,11 +606,11 @@ impl Oracle for RepeatOracle {
                             verdict = 5;
                             violation = Some(Violation::new(
                                 "C05/iii echo-is-not-a-copy",
-                                format!("fragment-no={}", self.sol_pending.unwrap_or(0).min(3)),
+                                format!("fragment-no={}", sol_pending_at_arrival.unwrap_or(0).min(3)),
                                 format!(
                                     "step {}: READ retransmitted while fragment {} of the series awaits confirmation was answered with {} which equals no fragment transmitted before",
                                     step.op_index,
-                                    self.sol_pending.unwrap_or(0),
+                                    sol_pending_at_arrival.unwrap_or(0),
                                     crate::verif::io::hex(r)
                                 ),
                             ));
